@@ -94,6 +94,16 @@ def run (σ : Sig F) (s : MState F V) (ops : List (Op F V)) : MState F V := ops.
 /-- the configuration calls of a history (what protocol R re-applies on the fresh wrapper) -/
 def cfgOf (ops : List (Op F V)) : List (Op F V) := ops.filter Op.isConfig
 
+/-- what a careful user re-applies on the fresh wrapper: mode switches and the option calls whose target is
+*not* in the state_dict; an option that is persisted (MPS keeps its temperature in a buffer) is left to the
+checkpoint -/
+def Op.isReapplied (σ : Sig F) : Op F V → Bool
+  | .mode _ => true
+  | .setOpt g _ => !(σ.kind g).persisted
+  | _ => false
+
+def cfgMin (σ : Sig F) (ops : List (Op F V)) : List (Op F V) := ops.filter (Op.isReapplied σ)
+
 /-- `state_dict()`: the persisted fields that are registered -/
 def save (σ : Sig F) (s : MState F V) : F → Option V :=
   fun f => if (σ.kind f).persisted && s.present f then some (s.val f) else none
@@ -144,6 +154,10 @@ def obs (σ : Sig F) (sem : Sem F V X O) (x : X) (s : MState F V) : O :=
 /-- protocol R: same constructor arguments (`fresh`), configuration calls re-applied, strict load -/
 def resumeR (σ : Sig F) (fresh : MState F V) (ops : List (Op F V)) (s : MState F V) : MState F V :=
   load σ (save σ s) (run σ fresh (cfgOf ops))
+
+/-- protocol R, minimal form: only the configuration that lives outside the state_dict is re-applied -/
+def resumeRmin (σ : Sig F) (fresh : MState F V) (ops : List (Op F V)) (s : MState F V) : MState F V :=
+  load σ (save σ s) (run σ fresh (cfgMin σ ops))
 
 /-- the literal reading: nothing re-applied except the mode the caller observes in -/
 def resumeL (σ : Sig F) (fresh : MState F V) (s : MState F V) : MState F V :=
